@@ -77,6 +77,8 @@ Record Client := {
   cl_cert : option Cert;
   cl_alpn : option (list Z); cl_npn : option (list Z); cl_sni : option Z;
   cl_srp_user : Z; cl_fallback : bool;
+  cl_ticket : option Z;                (* a TLS 1.3 ticket of an earlier session is held: Some (PRF hash of that
+                                          session's suite, 0 = sha256 | 1 = sha384); offered as PSK identity 999 *)
   cl_hello2_len : Z                    (* measured input: byte length of the ClientHello record that
                                           answers a HelloRetryRequest (its padding makes it config-dependent) *)
 }.
@@ -86,8 +88,14 @@ Record Server := {
   sv_cert : option Cert;
   sv_srp : option (list (Z * Z));      (* verifier database: user -> group size in bits *)
   sv_anon : bool; sv_req_cert : bool;
-  sv_alpn : option (list Z); sv_npn : option (list Z)
+  sv_alpn : option (list Z); sv_npn : option (list Z);
+  sv_nst_len : Z;                      (* measured input: byte length of the plaintext NewSessionTicket record the
+                                          server sends before its ChangeCipherSpec in TLS <= 1.2 (0 = none sent) *)
+  sv_ticket : option Z                 (* the server's ticketKeys decrypt the client's ticket: Some (PRF hash of the
+                                          ticket's suite) *)
 }.
+
+Definition ticket_identity : Z := 999.
 
 (* ---- suite filtering (CipherSuite._filterSuites, filterForVersion, filter_for_certificate) --- *)
 Definition admitted (tbl : list (Z * bool * list Z)) (names : list Z) (v : Z) (s : Z) : bool :=
@@ -285,7 +293,9 @@ Definition client_offer (c : Client) : res CHello :=
         ch_sni := cl_sni c;
         ch_rsl := if ext then st_rsl st else None;
         ch_srp_user := if cl_flavour c =? 1 then Some (cl_srp_user c) else None;
-        ch_psk_ids := if ext && (4 <=? st_maxV st) then map fst (st_psks st) else [];
+        ch_psk_ids := if ext && (4 <=? st_maxV st)
+                      then (match cl_ticket c with Some _ => [ticket_identity] | None => [] end) ++ map fst (st_psks st)
+                      else [];
         ch_psk_modes := if ext && tls13 then Some (st_psk_modes st) else None;
         ch_fallback := cl_fallback c |}
   end.
@@ -426,7 +436,8 @@ Record Flight := {
   fl_group : option Z; fl_dh_bits : option Z; fl_srp_bits : option Z;
   fl_cert_req : option (list Z);       (* CertificateRequest signature algorithms *)
   fl_psk : option Z;                   (* index of the selected PSK identity *)
-  fl_hrr : bool
+  fl_hrr : bool;
+  fl_nst_len : Z                       (* length of the plaintext NewSessionTicket record, 0 = none *)
 }.
 
 Definition kex_of (suite : Z) : Z :=
@@ -533,7 +544,7 @@ Definition server_legacy (s : Server) (ch : CHello) (v suite : Z) : res (Flight 
                fl_cert := sent_cert;
                fl_sig := if signed && (3 <=? v) then sig else None;
                fl_group := group; fl_dh_bits := snd dh; fl_srp_bits := srp_bits;
-               fl_cert_req := cert_req; fl_psk := None; fl_hrr := false |} in
+               fl_cert_req := cert_req; fl_psk := None; fl_hrr := false; fl_nst_len := sv_nst_len s |} in
   let limits := match ch_rsl ch, st_rsl st with
                 | Some r, Some mine => (Z.min two14 r, Z.min two14 mine)
                 | _, _ => (two14, two14) end in
@@ -617,10 +628,18 @@ Definition client_legacy (c : Client) (ch : CHello) (fl : Flight)
                             end
              else Ok None
          | _, _ => Ok None end) ;;
+  (* an rsa-pss key cannot make the TLS < 1.2 CertificateVerify signature: TLSInternalError -> internal_error *)
+  _ <- (match my_cert with
+        | Some mc => if (v <? 3) && (ct_alg mc =? 1) then client_alert a_internal_error else Ok tt
+        | None => Ok tt end) ;;
   (* EdDSA keys cannot sign the TLS < 1.2 CertificateVerify: TypeError in the client, no alert *)
   _ <- (match my_cert with
         | Some mc => if (v <? 3) && ((ct_alg mc =? 3) || (ct_alg mc =? 4)) then client_crash else Ok tt
         | None => Ok tt end) ;;
+  (* the client's receive limit is already in force when the server's plaintext NewSessionTicket arrives *)
+  _ <- (match fl_rsl fl, st_rsl st with
+        | Some _, Some mine => if Z.min two14 mine <? fl_nst_len fl then client_alert a_record_overflow else Ok tt
+        | _, _ => Ok tt end) ;;
   let limits := match fl_rsl fl, st_rsl st with
                 | Some r, Some mine => (r, Z.min two14 mine)
                 | Some r, None => (r, two14)       (* unreachable for an honest server *)
@@ -680,9 +699,13 @@ Definition server_tls13 (s : Server) (ch : CHello) (v suite : Z) (scheme : optio
   let prf := prf_of suite in
   let psk := if negb (match ch_psk_ids ch with [] => true | _ => false end)
                 && (memZ 0 modes || memZ 1 modes)
-                && negb (match st_psks st with [] => true | _ => false end)
-             then index_where (fun ident => existsb (fun p => (fst p =? ident)) (st_psks st) &&
-                                 match assoc ident (st_psks st) with Some h => h =? prf | None => false end)
+                && (negb (match st_psks st with [] => true | _ => false end)
+                    || match sv_ticket s with Some _ => true | None => false end)
+             then index_where (fun ident =>
+                                 if existsb (fun p => (fst p =? ident)) (st_psks st)
+                                 then match assoc ident (st_psks st) with Some h => h =? prf | None => false end
+                                 else (ident =? ticket_identity) &&
+                                      match sv_ticket s with Some h => h =? prf | None => false end)
                               (ch_psk_ids ch) 0
              else None in
   let has_key := match sv_cert s with Some _ => true | None => false end in
@@ -703,7 +726,7 @@ Definition server_tls13 (s : Server) (ch : CHello) (v suite : Z) (scheme : optio
                fl_group := if dhe then Some (fst grp) else None;
                fl_dh_bits := None; fl_srp_bits := None; fl_cert_req := cert_req;
                fl_psk := match psk with Some (i, _) => Some i | None => None end;
-               fl_hrr := snd grp |} in
+               fl_hrr := snd grp; fl_nst_len := 0 |} in
   let limits := match ch_rsl ch, st_rsl st with
                 | Some r, Some mine => (Z.min two14 (r - 1), Z.min two14 (mine - 1))
                 | _, _ => (two14, two14) end in
